@@ -253,8 +253,12 @@ def run_map(case, ctx):
         elif k == "update":
             pairs = [tuple(p) for p in o[1]]
             muts.extend(p[0] for p in pairs)
-            guard(ctx, "SortedMap/update", lambda: m.update(pairs))
-            ref.update(pairs)
+            if len(pairs) % 2:
+                guard(ctx, "SortedMap/update", lambda: m.update(dict(pairs)))      # mapping argument
+                ref.update(dict(pairs))
+            else:
+                guard(ctx, "SortedMap/update", lambda: m.update(pairs))            # iterable of pairs
+                ref.update(pairs)
         elif k == "popitem":
             if ref:
                 kk, vv = guard(ctx, "SortedMap/popitem", lambda: m.popitem())
